@@ -174,3 +174,24 @@ Definition backend_case (id : Z) (plus resolver : bool) (c : Cluster) (ns : stri
    if is_nil obs_entry then 0 else 1;
    branch_tag plus c ns b;
    k].
+
+(* ---------- the dynamic family: what is configured after watch events ---------- *)
+(* The observable is the list of `server` lines of the configuration file written last.  The
+   Endpoints entry behind it is that list, or nothing when the only line is the placeholder. *)
+Definition entry_of_servers (k : bkind) (servers : list string) : list string :=
+  match servers with
+  | [s] => if String.eqb s (placeholder k) then [] else servers
+  | _ => servers
+  end.
+
+(* [c] is the cluster AFTER the events.  Model (X): once the queue is drained the file holds
+   the rendering of the resolution on [c].  Specification (S): C14 on [c], evaluated on the
+   configured servers. *)
+Definition dyn_case (id : Z) (plus resolver : bool) (c : Cluster) (ns : string) (b : Backend)
+           (obs_servers : list string) : list Z :=
+  let entry := entry_of_servers (b_kind b) obs_servers in
+  let k := spec_kind plus resolver c ns b entry false obs_servers in
+  let agrees := existsb (fun c' => perm_eqb (rendered plus resolver (b_kind b) (endpoints_entry plus c' ns b)) obs_servers)
+                        (pod_orders c) in
+  [id; if agrees then 1 else 0; if k =? 0 then 1 else 0; if is_nil entry then 0 else 1;
+   500 + branch_tag plus c ns b; k].
